@@ -471,6 +471,18 @@ fn main() {
             out.flush().unwrap();
             println!("{{\"programs\": {}, \"runs\": {}, \"incomplete\": {}}}", progs.len(), n, hangs);
         }
+        "conc-casuniq" => {
+            // C02 across keys: the shared CAS counter under free-running threads
+            let threads: usize = get("threads", "8").parse().unwrap();
+            let ops: usize = get("ops", "50000").parse().unwrap();
+            let rounds: usize = get("rounds", "3").parse().unwrap();
+            let mut out = BufWriter::new(File::create(get("out", "casuniq.ndjson")).unwrap());
+            for _ in 0..rounds {
+                writeln!(out, "{}", conc::cas_uniqueness(threads, ops)).unwrap();
+            }
+            out.flush().unwrap();
+            println!("{{\"runs\": {}}}", rounds);
+        }
         "conc-hammer" => {
             let threads: usize = get("threads", "8").parse().unwrap();
             let ops: usize = get("ops", "20000").parse().unwrap();
